@@ -94,6 +94,7 @@ def doReset (ws : List String) : Option (DState × String) := do
 def stepLine (ds : Option DState) (line : String) : Option DState × String :=
   let ws := words line
   match ws with
+  | "nodewire" :: _ => (ds, "done")   -- implementation-side wire oracle on the node's real hand-over (nothing to model here)
   | "reset" :: rest =>
     match doReset rest with
     | some (d, o) => (some d, o)
